@@ -106,11 +106,13 @@ mutual
     | c :: b :: rest => do pure ((← toList c, ← toList b) :: (← toElifs rest))
     | _ => none
 
-  partial def toCaseItem : Sx → Option (Bool × List Item × CaseCont)
+  partial def toCaseItem : Sx → Option (Bool × Bool × List Item × CaseCont)
     | .list [m, .atom k, b] => do
         let k ← match k with
           | "b" => some CaseCont.break_ | "f" => some .fallThrough | "c" => some .continue_ | _ => none
-        pure ((← m.nat?) != 0, ← toList b, k)
+        -- 0 = no pattern matches, 1 = one matches, 2 = expanding the patterns fails
+        let m ← m.nat?
+        pure (m == 1, m == 2, ← toList b, k)
     | _ => none
 
   partial def toPipeline : Sx → Option Pipeline
